@@ -26,9 +26,13 @@ PAYLOADS = {
     "fin/header": {0: {}, 1: None, 8: {"no_such_field": 1}, 9: {"headers": {}}},   # tag 1 depends on the id
     "eh/redirect": {0: {}, 8: {"no_such_field": 1}, 9: {"to": "http://elsewhere.test/"}},
     "eh/default": {0: {}, 8: {"no_such_field": 1}, 9: {"to": "http://elsewhere.test/"}},
+    "eh/www_authenticate": {0: {}, 8: {"no_such_field": 1}, 9: {"realm": {"a": "b"}}},
 }
 GOOD = {"authn/generic": [0, 1, 2], "authn/anonymous": [0, 1], "authz/remote": [0, 1, 2], "ctx/generic": [0, 1, 2],
-        "fin/header": [0, 1], "eh/redirect": [0], "eh/default": [0]}
+        "fin/header": [0, 1], "eh/redirect": [0], "eh/default": [0], "eh/www_authenticate": [0]}
+# Tags from TYPED on name the VALUES of the case's `ovr` table (`ovr[tag - TYPED]`): the model decodes the value itself
+# (strict decoding per mechanism type, Model/FactoryOverride.lean) instead of being told whether it is acceptable.
+TYPED = 100
 
 
 def decl(kind, mid, typ):
@@ -43,6 +47,7 @@ CATALOGUE = (
     + [decl("ctx", i, "generic") for i in ("c1", "c2", "c3", "keto")]
     + [decl("fin", i, "header") for i in ("f1", "f2", "f3", "keto")]
     + [decl("eh", i, "redirect") for i in ("e1", "e2", "e3", "duo")] + [decl("eh", "edef", "default")]
+    + [decl("eh", i, "www_authenticate") for i in ("w1", "w2")]
 )
 SHARED_IDS = ["keto", "duo"]
 PATHS = ["yaml", "json", "k8s"]
@@ -92,10 +97,76 @@ def step(keys, cond="absent", cfg=None, on_error=False):
     return s
 
 
-def case(mode, default, rules, path="yaml"):
+def case(mode, default, rules, path="yaml", ovr=None):
     if isinstance(rules, dict):
         rules = [rules]
-    return {"fam": "factory", "mode": mode, "path": path, "cat": CATALOGUE, "default": default, "rules": rules}
+    c = {"fam": "factory", "mode": mode, "path": path, "cat": CATALOGUE, "default": default, "rules": rules}
+    if ovr:
+        c["ovr"] = list(ovr.values if isinstance(ovr, Overrides) else ovr)
+    return c
+
+
+class Overrides:
+    """the table of typed override values of a case: equal values share a tag, different values never do"""
+
+    def __init__(self):
+        self.values = []
+
+    def tag(self, value):
+        for i, v in enumerate(self.values):
+            if canon(v) == canon(value):
+                return TYPED + i
+        self.values.append(value)
+        return TYPED + len(self.values) - 1
+
+    def step(self, keys, value, cond="absent", on_error=False):
+        """a step whose `config` is the literal `value` (a map)"""
+        s = step(keys, cond, None, on_error)
+        s["cfg"] = self.tag(value)
+        s["config"] = value
+        return s
+
+
+def canon(v):
+    import json
+    return json.dumps(v, sort_keys=True)
+
+
+def restep(s, keys=None, cond=None, drop_cfg=False, on_error=False):
+    """the step `s` with other keys / another condition / without its override (used by the shrinker)"""
+    keys = s["keys"] if keys is None else keys
+    cond = s.get("cond", "absent") if cond is None else cond
+    if drop_cfg or s.get("cfg") is None:
+        return step(keys, cond, None, on_error)
+    if s["cfg"] >= TYPED:
+        n = step(keys, cond, None, on_error)
+        n["cfg"], n["config"] = s["cfg"], s["config"]
+        return n
+    return step(keys, cond, s["cfg"], on_error)
+
+
+def compact(c):
+    """drop the entries of the `ovr` table no step refers to and renumber the tags"""
+    if not c.get("ovr"):
+        c.pop("ovr", None)
+        return c
+    used = []
+    owners = ([c["default"]] if c.get("default") else []) + list(c["rules"])
+    for o in owners:
+        for lst in ("execute", "on_error"):
+            for st in (o.get(lst) or []):
+                if (st.get("cfg") or 0) >= TYPED and st["cfg"] not in used:
+                    used.append(st["cfg"])
+    new = {t: TYPED + i for i, t in enumerate(used)}
+    for o in owners:
+        for lst in ("execute", "on_error"):
+            for st in (o.get(lst) or []):
+                if (st.get("cfg") or 0) >= TYPED:
+                    st["cfg"] = new[st["cfg"]]
+    c["ovr"] = [c["ovr"][t - TYPED] for t in used]
+    if not c["ovr"]:
+        del c["ovr"]
+    return c
 
 
 def rule(execute=ABSENT, on_error=ABSENT, bt=None, forward_to=False):
@@ -325,7 +396,7 @@ def grid_steps():
         for kind in ("authn", "authz", "ctx", "fin", "eh"):
             rules = []
             ids = [BY_KIND[kind][0]["id"], "nope"] + (["anon"] if kind == "authn" else []) + \
-                  (["edef"] if kind == "eh" else []) + [i for i in SHARED_IDS]
+                  (["edef", "w1"] if kind == "eh" else []) + [i for i in SHARED_IDS]
             for mid, cond, tag in itertools.product(ids, conds, [None, 0, 1, 2, 8, 9]):
                 t = type_of(kind, mid)
                 if tag is not None and t is not None and tag not in PAYLOADS[t]:
@@ -419,5 +490,167 @@ def grid_shared_ids():
     return cases
 
 
+# ---------------------------------------------------------------------------------------------------------------
+# look-alike overrides: values that differ in type or structure but print the same under `fmt.Sprint` / `%v` / JSON
+# without quotes.  The members of a family are different VALUES: each rule must be judged by its own (the decoders
+# are strict, so most of the non-string members are refused), whatever the factory created before.  A family may also
+# hold different spellings of the same setting ("1m" / "60s" / 60000000000) and plain invalid values.
+
+def _fin(mid, text):
+    return mid + "/" + text
+
+
+def families(kind, mid):
+    """[[value, ...], ...] for the mechanism `mid` of `kind` (the values mention the id where the trace shows it)"""
+    t = type_of(kind, mid)
+    if t == "authn/anonymous":
+        return [[{"subject": "1"}, {"subject": 1}], [{"subject": "true"}, {"subject": True}],
+                [{"subject": "[a b]"}, {"subject": ["a", "b"]}, {"subject": ["a b"]}],
+                [{"subject": "map[a:b]"}, {"subject": {"a": "b"}}],
+                [{"subject": "<nil>"}, {"subject": None}, {"subject": ""}],
+                [{"subject": "a b:c"}, {"subject": "a", "b": "c"}],
+                [{"subject": "-7"}, {"subject": -7}]]
+    if t == "authn/generic":
+        return [[{"allow_fallback_on_error": False}, {"allow_fallback_on_error": "false"}, {"allow_fallback_on_error": 0}],
+                [{"allow_fallback_on_error": True}, {"allow_fallback_on_error": "true"}, {"allow_fallback_on_error": None}],
+                [{"cache_ttl": "1m"}, {"cache_ttl": "1m0s"}, {"cache_ttl": "60s"}, {"cache_ttl": 60000000000}],
+                [{"cache_ttl": "5"}, {"cache_ttl": 5}, {"cache_ttl": "5s"}],
+                [{"cache_ttl": "true"}, {"cache_ttl": True}],
+                [{"allow_fallback_on_error": False, "cache_ttl": "1h"}, {"allow_fallback_on_error": "false cache_ttl:1h"}]]
+    if t in ("authz/remote", "ctx/generic"):
+        fams = [[{"values": {"v": "a w:b"}}, {"values": {"v": "a", "w": "b"}}],
+                [{"values": {"v": "1"}}, {"values": {"v": 1}}],
+                [{"values": {"v": "true"}}, {"values": {"v": True}}],
+                [{"values": "map[v:a]"}, {"values": {"v": "a"}}, {"values": ["v:a"]}],
+                [{"values": {"v": "[a b]"}}, {"values": {"v": ["a", "b"]}}],
+                [{"values": {"v": "map[x:y]"}}, {"values": {"v": {"x": "y"}}}],
+                [{"values": {}}, {"values": None}, {"values": "map[]"}],
+                [{"cache_ttl": "1m0s"}, {"cache_ttl": 60000000000}, {"cache_ttl": "1m"}],
+                [{"cache_ttl": "soon"}, {"cache_ttl": ["soon"]}]]
+        if t == "ctx/generic":
+            fams += [[{"continue_pipeline_on_error": False}, {"continue_pipeline_on_error": "false"}],
+                     [{"continue_pipeline_on_error": True, "values": {"v": "c"}},
+                      {"continue_pipeline_on_error": "true values:map[v:c]"}]]
+        return fams
+    if t == "fin/header":
+        return [[{"headers": {"X-Fin": _fin(mid, "L X-L:b")}}, {"headers": {"X-Fin": _fin(mid, "L"), "X-L": "b"}}],
+                [{"headers": {"X-Fin": "1"}}, {"headers": {"X-Fin": 1}}],
+                [{"headers": {"X-Fin": "true"}}, {"headers": {"X-Fin": True}}],
+                [{"headers": "map[X-Fin:a]"}, {"headers": {"X-Fin": "a"}}, {"headers": ["X-Fin:a"]}],
+                [{"headers": {"X-Fin": "[a b]"}}, {"headers": {"X-Fin": ["a", "b"]}}],
+                [{"headers": {"X-Fin": "map[a:b]"}}, {"headers": {"X-Fin": {"a": "b"}}}],
+                [{"headers": {}}, {"headers": None}, {"headers": "map[]"}],
+                [{"headers": {"X-Fin": _fin(mid, "{{ .Subject.ID }}"), "X-L": "{{ .Subject.ID }} X-M:m"}},
+                 {"headers": {"X-Fin": _fin(mid, "{{ .Subject.ID }}"), "X-L": "{{ .Subject.ID }}", "X-M": "m"}}]]
+    if t == "eh/www_authenticate":
+        return [[{"realm": "1"}, {"realm": 1}], [{"realm": "true"}, {"realm": True}],
+                [{"realm": "[a b]"}, {"realm": ["a", "b"]}], [{"realm": "map[a:b]"}, {"realm": {"a": "b"}}],
+                [{"realm": "<nil>"}, {"realm": None}, {"realm": ""}],
+                [{"realm": "a b:c"}, {"realm": "a", "b": "c"}]]
+    if t in ("eh/redirect", "eh/default"):
+        return [[{"to": "1"}, {"to": 1}], [{"to": "http://elsewhere.test/"}, {"to": ["http://elsewhere.test/"]}]]
+    return []
+
+
+def nil_template_families(kind, mid):
+    """C14-1: entries of a template map that are "" or null — accepted at load and a nil dereference at execution on
+    the unpatched tree, refused at load with fixes/C14-1.patch (the model).  Only with VERIF_C14_NIL_TEMPLATES=1."""
+    t = type_of(kind, mid)
+    if t in ("authz/remote", "ctx/generic"):
+        return [[{"values": {"v": ""}}, {"values": {"v": None}}, {"values": {"v": "<nil>"}}]]
+    if t == "fin/header":
+        return [[{"headers": {"X-Fin": ""}}, {"headers": {"X-Fin": None}}, {"headers": {"X-Fin": _fin(mid, "a"), "X-L": ""}}]]
+    return []
+
+
+import os as _os
+if _os.environ.get("VERIF_C14_NIL_TEMPLATES") == "1":
+    _plain_families = families
+
+    def families(kind, mid):     # noqa: F811
+        return _plain_families(kind, mid) + nil_template_families(kind, mid)
+
+
+LOOKALIKE_IDS = {"authn": ["anon", "g1", "g2", "duo"], "authz": ["z1", "z2", "keto"], "ctx": ["c1", "c2", "keto"],
+                 "fin": ["f1", "f2", "keto"], "eh": ["w1", "w2", "e1", "edef"]}
+
+
+def lookalike_rule(ov, kind, mid, value, rng=None, forward_to=False):
+    """a rule that references `mid` with the rule-level config `value` and makes its effect visible in the trace"""
+    r = rng.random() if rng else 1.0
+    s = ov.step({KEY_OF[kind]: mid}, value, "expr" if (rng and kind not in ("authn",) and rng.random() < 0.15) else "absent",
+                on_error=kind == "eh")
+    anon, fin = step({"authenticator": "anon"}), step({"finalizer": "f3"})
+    if kind == "eh":
+        ex = [step({"authenticator": "g3"})] + ([fin] if r < 0.3 else [])
+        eh = [s] + ([step({"error_handler": "e2"}, on_error=True)] if r < 0.4 else [])
+        return rule(ex, eh, None, forward_to)
+    if kind == "authn":
+        if type_of(kind, mid) == "authn/anonymous":
+            ex = [s, step({"authorizer": "z3"}), fin] if r >= 0.3 else [s, fin]
+        else:
+            ex = [s, step({"authenticator": "g3"})] + ([step({"contextualizer": "c3"})] if r < 0.5 else [])
+    elif kind == "fin":
+        ex = [anon] + ([step({"authorizer": "z3"})] if r < 0.3 else []) + [s] + ([fin] if r < 0.3 else [])
+    else:
+        ex = [anon, s] + ([fin] if r >= 0.3 else [])
+    return rule(ex, ABSENT if (not rng or r < 0.7) else [step({"error_handler": "e2"}, on_error=True)], None, forward_to)
+
+
+LOOKALIKE_DEFAULT = default_rule([step({"authenticator": "g3"}), step({"authorizer": "z3"}), step({"finalizer": "f3"})],
+                                 [step({"error_handler": "e3"}, on_error=True)], True)
+
+
+def gen_lookalike_case(rng):
+    """one factory, 2..6 rules referencing the same one or two catalogue mechanisms, each with a member of the same
+    look-alike family (members repeat, any order)"""
+    ov = Overrides()
+    mode = "proxy" if rng.random() < 0.2 else "decision"
+    targets = []
+    for _ in range(1 if rng.random() < 0.7 else 2):
+        kind = rng.choice(["authn", "authn", "authz", "ctx", "fin", "fin", "eh"])
+        mid = rng.choice(LOOKALIKE_IDS[kind])
+        fams = families(kind, mid)
+        fam = list(rng.choice(fams))
+        if rng.random() < 0.25:
+            fam += rng.choice(fams)          # members of another family of the same mechanism in between
+        targets.append((kind, mid, fam))
+    rules = []
+    for _ in range(rng.choice([2, 2, 3, 3, 4, 5, 6])):
+        kind, mid, fam = rng.choice(targets)
+        rules.append(lookalike_rule(ov, kind, mid, rng.choice(fam), rng, mode == "proxy" or rng.random() < 0.3))
+    d = None if rng.random() < 0.7 else LOOKALIKE_DEFAULT
+    return case(mode, d, rules, rng.choice(PATHS), ov)
+
+
+def grid_lookalikes():
+    """every mechanism type x every family: every ordered pair of different members as a history of two rules, and
+    the whole family forwards and backwards (then once more the first member) as one history"""
+    cases = []
+    n = 0
+    for kind in ("authn", "authz", "ctx", "fin", "eh"):
+        seen_types = {}
+        for mid in LOOKALIKE_IDS[kind]:
+            seen_types.setdefault(type_of(kind, mid), []).append(mid)
+        for t, mids in seen_types.items():
+            for fam in families(kind, mids[0]):
+                for a, b in itertools.permutations(range(len(fam)), 2):
+                    mid = mids[n % len(mids)]
+                    n += 1
+                    fm = families(kind, mid)[families(kind, mids[0]).index(fam)]
+                    ov = Overrides()
+                    cases.append(case("decision", None, [lookalike_rule(ov, kind, mid, fm[a]),
+                                                          lookalike_rule(ov, kind, mid, fm[b])], PATHS[n % 3], ov))
+                for order in (list(range(len(fam))), list(reversed(range(len(fam))))):
+                    mid = mids[n % len(mids)]
+                    n += 1
+                    fm = families(kind, mid)[families(kind, mids[0]).index(fam)]
+                    ov = Overrides()
+                    rules = [lookalike_rule(ov, kind, mid, fm[i]) for i in order + order[:1]]
+                    cases.append(case("decision", LOOKALIKE_DEFAULT if n % 4 == 0 else None, rules, PATHS[n % 3], ov))
+    return cases
+
+
 def small_scope(maxlen=4):
-    return (grid_orderings(maxlen) + grid_backtracking() + grid_steps() + grid_spellings() + grid_shared_ids())
+    return (grid_orderings(maxlen) + grid_backtracking() + grid_steps() + grid_spellings() + grid_shared_ids()
+            + grid_lookalikes())
